@@ -50,6 +50,18 @@ bool c20Underconstrain(GtModel &gt, const std::vector<int> &classes);
 // through that declaration while a rate needs it. Returns the class index of E, or -1 when the model has no VOI.
 int c20InjectRateChain(GtModel &gt, unsigned variant);
 
+// Further appended shapes (home component of the VOI, or the first component of a model without one). Each returns the
+// class meant to be marked external (-1 when the shape cannot be built).
+//  * initial-value chain: constant zK0 (literal), constant zK1 initial_value="zK0", zC = 2*zK1 and, in ODE models, a state
+//    zX initial_value="zK1" (variant bit 0: "zK0") with dzX/dt = zK1. Returns zK0.
+//  * NLA parameter: zP and zY both carry an initial value and appear in one equation zP + zY = 5 (the analyser takes both for
+//    unknowns of a one-equation system); in ODE models (variant bit 0) a state zT with dzT/dt = zY. Returns zP; *other (optional)
+//    receives zY, whose truth is 5 - zP (marking zY without zP is outside the truth).
+//  * rate read: state zZ with dzZ/dt = 3 and zR = 2*dzZ/dt. ODE models only. Returns zZ; *other receives zR.
+int c20InjectInitialValueChain(GtModel &gt, unsigned variant);
+int c20InjectNlaParameter(GtModel &gt, unsigned variant, int *other = nullptr);
+int c20InjectRateRead(GtModel &gt, unsigned variant, int *other = nullptr);
+
 // ---- stale-order protocol (RunPlan::staleOrder): which values computeVariables has to get right
 //
 // Under the stale-order protocol `variables` holds first-point intermediates when computeVariables(second point) starts.
@@ -62,13 +74,17 @@ struct C20Staleness
 {
     std::vector<bool> stateBased; // per class: reference for AnalyserEquation::isStateRateBased() of its equation(s)
     std::vector<bool> strict; // per class: the second-point value must be right after computeVariables under stale order
+    // per class, not strict only because it (or what it reads) varies with an external class that has no state-based declared
+    // dependency: the callback is invoked again by computeVariables, its consumers are not recomputed (listed finding, pinned by
+    // two expected files of the test-suite). Never set for a class that is also exempt because of the VOI.
+    std::vector<bool> staleThroughExternalOnly;
 };
 // external: per class, bound from outside (may be empty = none); declared: class -> classes declared as dependencies.
 C20Staleness c20Staleness(const GtModel &gt, const std::vector<bool> &external = {}, const std::map<int, std::vector<int>> &declared = {});
 
 // Copy of a run in which the second-point entries of the non-strict variables are replaced by the truth, so that
 // compareRunWithTruth(truth, map, <result>) judges exactly the strict ones. tolerated (optional) counts the replacements.
-RunResult c20TolerateStale(const GtModel &truth, const GtMapping &map, const RunResult &run, const C20Staleness &st, long *tolerated = nullptr);
+RunResult c20TolerateStale(const GtModel &truth, const GtMapping &map, const RunResult &run, const C20Staleness &st, long *tolerated = nullptr, bool judgeStaleThroughExternalOnly = false);
 
 // Variables indices to put into RunPlan::staleResolve: NLA unknowns (role NLA in truth) whose system is state based.
 std::vector<size_t> c20StaleResolve(const GtModel &truth, const GtMapping &map, const C20Staleness &st);
